@@ -14,6 +14,18 @@ func TestMain(m *testing.M) {
 	os.Exit(code)
 }
 
+// ProcessNodeFlags: the node-local options of the node on which this process runs its fast-mode
+// histories.  The driver starts every second shard of a test with VERIF_NODE_OPTS=1: a node whose operator
+// switched on telemetry, the inter-block cache, a small IAVL cache, aggressive pruning, minimum gas prices,
+// error traces and event indexing (store tracing and debug logging, which cost a factor of four, are left to the C11 replicas).  None of it may influence what the chain computes.
+func ProcessNodeFlags() NodeFlags {
+	if os.Getenv("VERIF_NODE_OPTS") == "1" {
+		return NodeFlags{Telemetry: true, InterBlockCache: true, IAVLCacheSize: 100, Pruning: "everything", MinGasPrices: "0.025uc4e",
+			Trace: true, IndexEvents: true, HaltHeight: 1_000_000}
+	}
+	return NodeFlags{}
+}
+
 var (
 	baseOnce  sync.Once
 	baseWorld *World
@@ -24,7 +36,7 @@ var (
 // deliver state.  Cases branch from it with CacheContext and never write it back.
 func Base() (*World, sdk.Context) {
 	baseOnce.Do(func() {
-		baseWorld = NewWorld(BaseSpec())
+		baseWorld = NewWorldWith(BaseSpec(), ProcessNodeFlags())
 		baseCtx = baseWorld.OpenFast()
 	})
 	return baseWorld, baseCtx
@@ -48,7 +60,7 @@ func caseNoICA() (*World, sdk.Context) {
 	noICAOnce.Do(func() {
 		spec := BaseSpec()
 		spec.OmitModules = []string{"interchainaccounts"}
-		noICAWorld = NewWorld(spec)
+		noICAWorld = NewWorldWith(spec, ProcessNodeFlags())
 		noICACtx = noICAWorld.OpenFast()
 	})
 	c, _ := noICACtx.CacheContext()
